@@ -56,6 +56,7 @@ func c05Ops(spec string) (ids []int, children map[int][]int) {
 // recorded in p.sched; otherwise p.sched is followed.
 func c05Run(p *c05Prog, online func(names []string) string, onlineSteps int) string {
 	s := NewSched()
+	s.Families = []string{"ops."}
 	webrtc.VerifSetYield(s.Yield)
 	defer webrtc.VerifSetYield(nil)
 	var logMu sync.Mutex
